@@ -29,6 +29,25 @@ ASSUME_PATTERNS = [
 ]
 
 
+def new_loop_locals(unit, cur, failed_fns):
+    """names in cur[fn#loop] that the baseline (contracts/LOOP_LOCALS.json, recorded on the pinned tree) does not list, for failed functions"""
+    try:
+        with open(os.path.join(vx.CONTRACTS, 'LOOP_LOCALS.json')) as f:
+            base = json.load(f).get(unit, {})
+    except (OSError, ValueError):
+        return []
+    out = []
+    failed_short = {(f or '').split('::')[-1] for f in failed_fns}
+    for key, names in cur.items():
+        fn = key.split('#')[0]
+        if fn not in failed_short:
+            continue
+        extra = [x for x in names if x not in base.get(key, [])]
+        if extra:
+            out.append('%s: %s' % (key, ', '.join(extra)))
+    return out
+
+
 def load_trusted():
     path = os.path.join(vx.CONTRACTS, 'TRUSTED.json')
     with open(path) as f:
@@ -247,6 +266,12 @@ def _run_unit(unit, workdir, canary=False, rlimit=None, timeout=900, tpl_path=No
     if lost:
         # proof hints could not be placed (the code around an anchor changed): a failure now may be a missing hint
         res['reason'] = 'anchor(s) lost, proof hints dropped, verification then failed: ' + '; '.join(lost)[:600]
+        return res
+    # a hoisted expression: an immutable local that is new (w.r.t. the pinned tree) in an isolated loop whose invariant cannot mention it
+    newloc = new_loop_locals(unit, res.get('extraction', {}).get('loop_locals', {}), failed_fns)
+    if newloc:
+        res['reason'] = ('loop(s) read a local bound outside them that the loop invariant does not mention (hoisted expression; Verus checks '
+                         'loop bodies from the invariant alone), verification then failed: ' + '; '.join(newloc))[:700]
         return res
     res['status'] = 'fail'
     hl = hint_lines(text)
